@@ -229,8 +229,10 @@ def fuzz_target(chk, target, corpdir, root, runs):
     os.makedirs(work, exist_ok=True)
     cmd = [exe, work, corpdir, "-fork=%d" % NCPU, "-ignore_crashes=1", "-ignore_timeouts=1", "-ignore_ooms=1", "-runs=%d" % runs, "-max_len=6000",
            "-timeout=10", "-malloc_limit_mb=512", "-rss_limit_mb=2048", "-artifact_prefix=" + art, "-seed=%d" % (chk.seed + 1), "-print_final_stats=1",
-           "-max_total_time=%d" % (3600 * 5)]
-    rc, out, err = run(cmd, timeout=3600 * 6, env=build.lib_env("fuzz", FUZZ_ENV), cwd=root)
+           "-max_total_time=%d" % (600 if chk.tier == "quick" else 3600 * 5)]
+    # (in fork mode a target whose every child dies at once - a defect on the common path - makes no progress towards -runs: the time
+    #  limit ends the job, the artifacts are triaged as usual)
+    rc, out, err = run(cmd, timeout=(1500 if chk.tier == "quick" else 3600 * 6), env=build.lib_env("fuzz", FUZZ_ENV), cwd=root)
     stats = {}
     m = re.findall(r"#(\d+): cov: (\d+) ft: (\d+) corp: (\d+)", err)
     if m:
